@@ -68,6 +68,8 @@ def detect(name, checks):
     if rc != 0:
         print("patch does not apply to /repo:", o); return
     res = {}
+    # evidence files describe runs on the unchanged tree: keep them out of harm's way
+    saved = {f: open(os.path.join(V, "evidence", f)).read() for f in os.listdir(os.path.join(V, "evidence")) if f.endswith(".json")}
     try:
         for c in checks:
             rc, o = sh("./check %s" % c, V, timeout=1800)
@@ -82,6 +84,10 @@ def detect(name, checks):
             print(name, c, "exit", rc, viol[:1])
     finally:
         sh("git checkout -- .", "/repo")
+        for f, s in saved.items():
+            open(os.path.join(V, "evidence", f), "w").write(s)
+        # the generated tables were made from the patched tree: regenerate them
+        sh("./check --setup", V, timeout=1800)
     det = meta.get("detection", {})
     det.update(res)
     meta["detection"] = det
